@@ -191,6 +191,31 @@ def run_case(vk, case):
             tags.append("top-cycle")
         if any(v == 0 for v in D.values()):
             tags.append("pairwise-tie")
+    # a second graph object queried in another order: cycle queries first, then the tier / Condorcet queries - the
+    # answers must not depend on what was asked before (every query is a pure function of the profile)
+    import random as _r
+    qr = _r.Random(case["rs"])
+    G2o = run_impl(lambda: PairwiseComparisonGraph(profile))
+    if G2o[0] == "ok" and tiers:
+        G2 = G2o[1]
+        first = ["get_condorcet_cycles", "has_condorcet_cycles"]
+        qr.shuffle(first)
+        for q in first[: qr.randint(1, 2)]:
+            out_q = run_impl(getattr(G2, q))
+            if out_q[0] != "ok":
+                fail("cycle-query-raises", f"{q}: {out_q[2]}")
+        t2 = run_impl(lambda: [sorted(names.idx[c] for c in t) for t in G2.dominating_tiers()])
+        h2 = run_impl(lambda: bool(G2.has_condorcet_winner()))
+        if t2[0] != "ok" or t2[1] != tiers:
+            fail("tiers-depend-on-earlier-queries", f"after cycle queries: {t2[1] if t2[0] == 'ok' else t2[2]} vs {tiers}")
+        cw_def = [a for a in spec["c"] if all(D[(a, b)] > 0 for b in spec["c"] if b != a)]
+        if h2[0] != "ok" or h2[1] != bool(cw_def):
+            fail("condorcet-winner-depends-on-earlier-queries", f"after cycle queries: {h2} vs definition {cw_def}")
+        # the graph's edges still say what pairwise_dict says: an edge for every positive margin, both directions for a tie
+        ed = {(names.idx[a], names.idx[b]) for a, b in G2.pairwise_graph.edges}
+        want_e = {(a, b) for (a, b) in D if D[(a, b)] >= 0}
+        if ed != want_e:
+            fail("graph-edges-changed-by-queries", f"missing {sorted(want_e - ed)[:4]} extra {sorted(ed - want_e)[:4]}")
     # elections
     ds = elect.construct(vk, "DominatingSets", profile, {}, case["rs"])
     if ds["status"] == "ok":
